@@ -46,8 +46,9 @@ Section Skeleton.
   Definition load_import (enable : bool) (body : comp) : comp := guarded enable (fun s => s) body.
 
   (* NewPackage.  args_ok = pkg and conf are non-nil (they are dereferenced before any defer);
-     has_rec = conf.Recorder != nil: `defer rec.Complete(p.Types.Scope())` is registered BEFORE the
-     recover defer, hence runs AFTER it, unprotected, and dereferences p.
+     has_rec = conf.Recorder != nil: `defer func() { if p != nil { rec.Complete(p.Types.Scope()) } }()` is
+     registered BEFORE the recover defer, hence runs AFTER it, unprotected; since repair 162cdf8 it is
+     skipped when p is nil (gogen.NewPackage panicked).
      gogen_new = gogen.NewPackage (sets p); body = everything up to err = ctx.complete();
      tail = genMainFunc / the generated empty main.  All arbitrary. *)
   Inductive result := Escaped (x : option X)          (* None = nil-pointer dereference *)
@@ -59,7 +60,7 @@ Section Skeleton.
                     | (Raised x, _) => Escaped (Some x)
                     | (Done, s') => Returned p_set err s'
                     end
-      else Escaped None
+      else Returned p_set err s              (* if p != nil { ... }: nothing to complete *)
     else Returned p_set err s.
 
   Definition after_panic (enable has_rec : bool) (rec_complete : comp) (p_set : bool) (x : X) (s : st) : result :=
